@@ -20,17 +20,26 @@ def _on_alarm(sig, frame):
     raise _Timeout()
 
 
+_BOUND_HITS = [0]
+
+
 def guarded(fn, *args, limit=3.0):
     """run fn(*args) under a CPU-time bound (SIGVTALRM, so that the wall-clock timer of a forked child stays armed): a changed
-    library may loop or raise inside `a + b` itself. returns (status, value) with status ok / timeout / memory / exc"""
+    library may loop or raise inside `a + b` or inside `path()` itself. returns (status, value) with status ok / timeout / memory /
+    exc — and `skipped` (not run) once three evaluations of this process have hit the bound: a library whose walk does not
+    terminate is reported with the first failing inputs instead of exhausting the wall clock of the whole check"""
     import signal
+    if _BOUND_HITS[0] >= 3:
+        return "skipped", None
     old = signal.signal(signal.SIGVTALRM, _on_alarm)
     signal.setitimer(signal.ITIMER_VIRTUAL, limit)
     try:
         return "ok", fn(*args)
     except _Timeout:
+        _BOUND_HITS[0] += 1
         return "timeout", None
     except MemoryError:
+        _BOUND_HITS[0] += 1
         return "memory", None
     except Exception as e:  # noqa: BLE001
         return "exc", f"{type(e).__name__}: {e}"[:200]
@@ -44,12 +53,15 @@ def guarded_check(out, inp, fn, *args):
     st, v = guarded(fn, out, *args)
     if st == "ok":
         return v
+    if st == "skipped":
+        return None
     if st == "exc":
         out.fail("node-link-raises:" + v.split(":")[0], "linking two nodes (Node.__add__) raises", inp, observed=v)
     else:
         out.fail("node-link-does-not-terminate", f"linking two nodes (Node.__add__) or walking their tables exceeds the {st} bound", inp, observed=st)
     return None
-LEAN_TARGETS = ["BeyondVerif.Props.C20", "BeyondVerif.Props.C20Forest", "BeyondVerif.Props.C20Registry", "BeyondVerif.Props.C20Named", "BeyondVerif.Props.C20LinkKey", "BeyondVerif.Witness.C20"]
+LEAN_TARGETS = ["BeyondVerif.Props.C20", "BeyondVerif.Props.C20Forest", "BeyondVerif.Props.C20Graph", "BeyondVerif.Props.C20Registry", "BeyondVerif.Props.C20Named",
+                "BeyondVerif.Props.C20NamedForest", "BeyondVerif.Props.C20Convert", "BeyondVerif.Props.C20LinkKey", "BeyondVerif.Props.C20LinkKeyReg", "BeyondVerif.Witness.C20"]
 THEOREMS = [
     "BeyondVerif.C20.path_valid_chain",
     "BeyondVerif.C20.nbrs_iff_linked",
@@ -67,8 +79,26 @@ THEOREMS = [
     "BeyondVerif.C20.forest_routingExact",
     "BeyondVerif.C20.new_registration_preserves",
     "BeyondVerif.Node.refreshRoutes_spec",
+    "BeyondVerif.Node.ginv_refresh",
+    "BeyondVerif.Node.update_traverse",
+    "BeyondVerif.C20.graph_routes_total",
+    "BeyondVerif.C20.graph_build_succeeds",
+    "BeyondVerif.C20.graph_path_simple",
+    "BeyondVerif.C20.graph_routes_total_bounded",
+    "BeyondVerif.C20.graph_steps_bound",
+    "BeyondVerif.C20.shortest_if_steps_not_stale",
+    "BeyondVerif.C20.forestHist_perm",
+    "BeyondVerif.C20.tree_any_order_routes_exact",
+    "BeyondVerif.C20.tree_any_order_routingExact",
     "BeyondVerif.C20.named_model_is_node_model",
     "BeyondVerif.C20.named_path_valid_chain",
+    "BeyondVerif.Reg.sim_refresh",
+    "BeyondVerif.Reg.build_lockstep",
+    "BeyondVerif.C20.named_tables_quotient",
+    "BeyondVerif.C20.named_graph_routes_total",
+    "BeyondVerif.C20.named_forest_routes_nearest",
+    "BeyondVerif.C20.named_forest_build_succeeds",
+    "BeyondVerif.C20.named_graph_build_succeeds",
     "BeyondVerif.C20.applyOps_spec",
     "BeyondVerif.C20.registered_run",
     "BeyondVerif.C20.convert_resolves",
@@ -76,48 +106,72 @@ THEOREMS = [
     "BeyondVerif.C20.fresh_names_keep_methods",
     "BeyondVerif.C20.sites_register_root",
     "BeyondVerif.C20.builtin_links_have_methods",
+    "BeyondVerif.C20.import_registered",
+    "BeyondVerif.C20.builtin_convert_never_unknown_transformation",
+    "BeyondVerif.C20.convert_total",
     "BeyondVerif.C20.small_named_forests_exact",
     "BeyondVerif.C20.linkKey_injective",
     "BeyondVerif.C20.key_sites_plain",
     "BeyondVerif.C20.collision_infix",
     "BeyondVerif.C20.collision_suffix",
     "BeyondVerif.C20.normKey_collision",
+    "BeyondVerif.C20.goodName_iff",
+    "BeyondVerif.C20.linkKey_eq_iff",
+    "BeyondVerif.C20.fresh_names_keep_methods_str",
+    "BeyondVerif.C20.collision_changes_lookup",
+    "BeyondVerif.C20.convertS_eq_convert",
+    "BeyondVerif.C20.applyOpsS_enc",
     "BeyondVerif.C20W.pentagon_not_shortest",
+    "BeyondVerif.C20W.pentagon_stale_entry",
+    "BeyondVerif.C20W.ring_detours",
     "BeyondVerif.C20W.topo_ctor_instance_only_regression",
     "BeyondVerif.C20W.subclass_registration_unresolvable",
 ]
-LEVEL_TEXT = ("Lean theorems over the routing model: for every insertion history (any graph, order, orientation) each returned path is a chain of "
-              "inserted links from source to goal (path_valid_chain); for EVERY forest history of any size (each link joins two components; any order, "
-              "either orientation) the incremental tables route every connected pair along the unique simple chain of inserted links and report Unknown "
-              "for every unconnected pair, fuel >= number of nodes always suffices (forest_routes_exact, forest_routes_exact_bounded, forest_path_unique, forest_tables_exact, "
-              "forest_routingExact, by induction over histories with a traversal invariant for _update); linking a fresh leaf changes no existing route "
-              "(new_registration_preserves); the three built-in graphs, regenerated from the source in execution order each run, and all forest "
+LEVEL_TEXT = ("Lean theorems over the routing model. ANY graph (cycles, repeated links, any order and orientation; no self-link): a route is found exactly for the connected pairs, "
+              "the walk of path terminates, the returned path is a chain of inserted links without repeated node (<= n - 1 hops), never longer than the steps field of the "
+              "source's entry, and it is a shortest chain whenever that field is not stale (graph_routes_total, graph_path_simple, graph_steps_bound, shortest_if_steps_not_stale, "
+              "graph_build_succeeds; by a descent invariant kept by every single table rebuild, ginv_refresh, and a generic induction over the depth-first _update, update_traverse). "
+              "FORESTS of any size, in ANY order of their links (forestHist_perm, tree_any_order_routes_exact): every connected pair is routed along the unique simple chain, every "
+              "unconnected pair is Unknown, fuel >= number of nodes suffices (forest_routes_exact, forest_routes_exact_bounded, forest_path_unique, forest_tables_exact, forest_routingExact); "
+              "linking a fresh leaf changes no existing route (new_registration_preserves); the three built-in graphs, regenerated from the source in execution order each run, and all forest "
               "histories on <=4 nodes are additionally checked by (kernel) decide. "
-              "Registry layer (Model/Registry.lean: node identity distinct from node name, method table keyed (holder, '<a>_to_<b>') with lookup on the START "
-              "object through instance dict and MRO, as convert_to does): with one name per node the named model is the routing model above "
-              "(named_model_is_node_model); for every history of registry operations and any names a returned path is a chain of inserted links ending at a node "
-              "carrying the goal name (named_path_valid_chain); for every history of executions of registration sites that store the method of each link they insert on "
-              "the base class, every link stays registered (registered_run) and convert_to never raises 'Unknown transformation' on a connected pair, from any start "
-              "object that is an instance of the base class (convert_resolves, convert_never_unknown_transformation); the registration sites of the current source, "
-              "regenerated from the AST each run, satisfy that hypothesis (sites_register_root, decide) and every built-in link has a class-body method "
-              "(builtin_links_have_methods, decide); every registration site and both convert_to form the attribute name as f'{a}_to_{b}' without normalisation (key_sites_plain, "
-              "decide on the regenerated shapes) and that name determines the pair of names iff no first name contains '_to_' or ends with '_to' (linkKey_injective; collision_infix, "
-              "collision_suffix, normKey_collision are the kernel-checked collisions outside); registrations under new names change no lookup between old names (fresh_names_keep_methods); all forests on <=3 "
-              "nodes under every assignment of (shared) names route to a nearest node of the name (small_named_forests_exact, kernel decide). "
-              "Exact differential correspondence of both models with the real Node / Orientation / Center classes on exhaustive/random histories.")
-LEVEL_NOTE = ("shortest-chain clause for cyclic graphs is false of the code (known finding, pinned); the bare TopocentricOrientation constructor registers on the base "
+              "SHARED NAMES (Model/Registry.lean: node identity distinct from node name): for every history and every assignment of names the named tables are the name-quotient of the plain "
+              "tables (named_tables_quotient: same direction and steps as the plain entry of a node of that name with the fewest steps; sim_refresh, build_lockstep); hence in ANY graph a route "
+              "to a name is found iff a node of that name is connected, along a simple path that stops at the first node of the name (named_graph_routes_total), and in every forest it leads "
+              "to a NEAREST node of the name — no chain of links to any node of the name is shorter (named_forest_routes_nearest); small_named_forests_exact keeps the <=3-node kernel check. "
+              "REGISTRY: method table keyed (holder, '<a>_to_<b>') with lookup on the START object through instance dict and MRO, as convert_to does; for every history of executions of "
+              "registration sites that store the method of each link they insert on the base class every link stays registered (registered_run, convert_resolves); the registration sites and the "
+              "class-body methods of the current source are regenerated from the AST each run (sites_register_root, builtin_links_have_methods, decide) and COMPOSED: from the import-time "
+              "orientation registry (import_registered) resp. the empty centre registry, after any history of executions of the regenerated sites, no routed step is 'Unknown transformation' "
+              "(builtin_convert_never_unknown_transformation), and convert_to either returns a resolved chain along a simple path to a node of the goal name or raises Unknown '<goal>', the latter "
+              "exactly when no connected object carries the name (convert_total). "
+              "LINK NAMES: every registration site and both convert_to form the attribute name as f'{a}_to_{b}' (key_sites_plain, decide on the regenerated shapes); that name determines the pair of "
+              "names iff no first name contains '_to_' or ends with '_to' (linkKey_injective, goodName_iff: decidable predicate goodName, evaluated by the compiled model on the names live in the real "
+              "registries); Model/RegistryStr.lean keys the method table by the STRING as the code does: under goodName registering under a new name changes no pre-existing lookup "
+              "(fresh_names_keep_methods_str) and the string-keyed registry IS the pair-keyed one (convertS_eq_convert, applyOpsS_enc); outside it the lookup changes (collision_changes_lookup, "
+              "collision_infix, collision_suffix, normKey_collision: kernel-checked). "
+              "Exact differential correspondence of all three models with the real Node / Orientation / Center classes on exhaustive/random histories, including an exhaustive exploration of every "
+              "state reachable on <=4 nodes (and a bounded one on 5) by any sequence of links.")
+LEVEL_NOTE = ("shortest-chain clause for cyclic graphs is false of the code (known finding, pinned; characterised: needs a stale entry at the source, detour <= n - 1 hops, rings closed last "
+              "attain n - 2 hops for distance 2 (kernel-checked n <= 8), none on <= 4 nodes, excess 1 / stretch 3/2 on 5 nodes); the bare TopocentricOrientation constructor registers on the base "
               "class since the fix of C20-topocentric-ctor-instance-only (regression witness kept); models hand-written, tied by correspondence, registration sites and built-in tables regenerated "
               "from the source; Lean kernel + propext/Classical.choice/Quot.sound")
-TECHNIQUE = "Lean 4 proof by induction over insertion / registration histories + kernel decide on tables and sites regenerated from the source; exact model/implementation correspondence"
+TECHNIQUE = ("Lean 4 proof by induction over insertion / registration histories (descent invariant per table rebuild, generic depth-first traversal lemma, simulation between the named and the plain "
+             "model) + kernel decide on tables and sites regenerated from the source; exact model/implementation correspondence, exhaustive over reachable states on small node sets")
 TRUSTED = [
     "harness/extract_graphs.py: records every Node.__add__ executed at import of beyond (execution order) -> Generated/Graphs.lean",
     "harness/c20_sites.py: reads the registration sites (setattr holder, key composition, link operands, order, calls of other sites) from the AST of center.py, orient.py, "
     "stations.py, frames.py, lagrange.py, solarsystem.py, jpl.py -> Generated/RegSites.lean; hand-written there: per site, which source expression denotes self / parent / other "
     "(checked for consistency at every inlined call; anything unrecognised aborts the extraction)",
     "correspondence: real Node objects vs compiled Lean model on identical insertion histories, exact comparison of neighbour sets, every routing table and every path "
-    "(also with nodes sharing names); real Orientation / Center classes and subclasses (TopocentricOrientation, LocalOrbitalOrientation, LagrangeOrient, JplCenter, user-defined "
+    "(also with nodes sharing names, with self-links and repeated links, rings closed last up to 30 nodes, trees in a random order of their links); real Orientation / Center classes and "
+    "subclasses (TopocentricOrientation, LocalOrbitalOrientation, LagrangeOrient, JplCenter, user-defined "
     "sub- and sub-subclasses) driven through the registration sites of the code and raw + / setattr vs the compiled registry model: graph, and for every start object and goal name "
-    "the exception kind or the chain of (step, direct/reverse, object owning the resolved method) of a real convert_to call",
+    "the exception kind or the chain of (step, direct/reverse, object owning the resolved method) of a real convert_to call; the same against the STRING-keyed model (driver op sreg) on "
+    "freely spelled names, including names containing '_to_' / ending with '_to' whose pairs share one attribute name",
+    "correspondence closure: every state reachable on 2, 3, 4 nodes (complete: 2 / 16 / 1474 states) and on 5 nodes within 4 (quick) / 6 (thorough) rounds by ANY sequence of links is "
+    "explored independently in the compiled model (driver op closure) and on the real Node class; numbers of states, of non-shortest states / pairs, worst detour and stretch must agree",
+    "correspondence link names: goodName / linkKey of the compiled model vs Python's `in` / endswith / f-string on the same names",
     "correspondence real-registry: in a forked child every Node.__add__ (patched) and every stored '<a>_to_<b>' attribute (class / instance dict comparison before and after each "
     "public-API registration: solarsystem, jpl with tests/data/jpl, lagrange, stations below any frame, orbit frames, re-registrations) is recorded and replayed in the compiled registry "
     "model; neighbour sets, routing tables and, for every start object and goal name, the chain of resolved link methods of the live Earth / ITRF graphs are compared exactly",
@@ -126,31 +180,38 @@ TRUSTED = [
     "harness/c20_registry.py: bounded walk of Node.routes (n+2 steps) used to decide that a real path()/convert_to call terminates before making it",
 ]
 ASSUMPTIONS = [
-    "the models Model/Node.lean and Model/Registry.lean are hand-written; they are tied to beyond/utils/node.py, beyond/frames/center.py, orient.py by the exact correspondence runs "
-    "and (registration sites, built-in links and class-body methods) by tables regenerated from the source",
-    "method keys are modelled as pairs of names; the code keys by the string f'{a}_to_{b}' (shape regenerated from the AST: key_sites_plain), which determines the pair exactly when no "
-    "first name contains '_to_' or ends with '_to' (linkKey_injective; collisions outside are witnessed and are the open finding C20-link-name-collision)",
+    "the models Model/Node.lean, Model/Registry.lean and Model/RegistryStr.lean are hand-written; they are tied to beyond/utils/node.py, beyond/frames/center.py, orient.py by the exact "
+    "correspondence runs and (registration sites, built-in links and class-body methods, shapes of the attribute names) by tables regenerated from the source",
+    "the any-graph theorems (graph_*, named_graph_*, named_forest_*, convert_total) assume no self-link `a + a` (forest histories have none; the library never links a node to itself); the "
+    "model itself is compared with the real class on histories WITH self-links as well",
+    "Model/Registry.lean keys methods by pairs of names; the code keys by the string f'{a}_to_{b}' (Model/RegistryStr.lean, shape regenerated from the AST: key_sites_plain); the two coincide "
+    "(convertS_eq_convert) when every name satisfies the decidable predicate goodName — evaluated on the names live in the real registries in every run; collisions outside are the open finding "
+    "C20-link-name-collision and ARE reproduced by the string-keyed model",
     "a Center and its Node are one object of the model (Center.__init__ creates exactly one Node under the same name); single inheritance below Orientation / Center (MRO = chain)",
     "no conversion runs in the middle of a registration site (a site's link and setattr are observed together)",
 ]
 OPEN = [
-    "with nodes sharing a name, 'routes lead to a nearest node of the name and never loop' is proved only for <=3 nodes (kernel decide); beyond that it is compared exhaustively "
-    "(4 nodes) / on random forests with the real code (forest_routes_exact assumes one name per node)",
-    "the initial (import-time) registry enters convert_resolves as a hypothesis (every link has a base-class method); for the built-in orientation graph that hypothesis is the "
-    "regenerated decide-theorem builtin_links_have_methods, the two are not composed into one statement inside Lean",
+    "'shortest on every history on <= 4 nodes' and the figures for 5 nodes (6360 of 2 206 106 reachable states route one pair with one hop too many) are exhaustive explorations of the compiled "
+    "model compared with the real class (<= 4 nodes complete in every run; 5 nodes complete once, corpus/C20_closure5.json, bounded rounds in every run), not kernel theorems; "
+    "'rings closed last take n - 2 hops for distance 2' is kernel-checked for n <= 8 and compared with the real class up to 30 nodes, not proved for every n",
+    "which of several equidistant nodes of one name a route reaches (depends on the neighbour order) is not characterised",
 ]
-NOT_COVERED = ["'a shortest chain in general' is false of the current code (known finding C20-cyclic-nonshortest)",
-               "names containing '_to_' or ending with '_to': two different pairs of names share one link method (known finding C20-link-name-collision); the registry model and "
-               "convert_resolves speak about names outside that set",
-               "which of several live nodes of ONE name a conversion designates: the code routes to the nearest node of the name and the newest registration of a key shadows the older one; "
+NOT_COVERED = ["'a shortest chain in general' is false of the current code (known finding C20-cyclic-nonshortest); proved instead: valid simple chain, <= n - 1 hops, shortest when the source's "
+               "steps field is not stale",
+               "names containing '_to_' or ending with '_to': two different pairs of names share one link method (known finding C20-link-name-collision); convert_resolves / convert_total speak "
+               "about names satisfying goodName; the string-keyed model reproduces the behaviour outside, no correctness claim is made there",
+               "which of several live nodes of ONE name a conversion designates beyond 'a nearest one': the newest registration of a key shadows the older one; "
                "numerical results of conversions that pass through such a name (analytical and JPL 'Sun' both alive; a frame hanging behind a station that was re-created under its name) "
-               "are not claimed - the property speaks of registrations under new names"]
+               "are not claimed - the property speaks of registrations under new names",
+               "self-links `a + a` in the any-graph theorems (modelled and compared, not covered by the descent invariant)"]
 RULE = ("correspondence: exhaustive enumeration of forest insertion histories (all orders, all orientations, every prefix) "
-        "on n<=5 (quick) / n<=6 (thorough) nodes plus random forests (<=40 nodes) and random cyclic graphs; the same with shared names (3 nodes: every name assignment x every history; "
-        "4 nodes sampled/exhaustive; random <=12 nodes; star-of-same-named-children shapes); registry scenarios: every driven site below a plain / subclass / sub-subclass parent, random "
-        "interleavings of sites and raw operations; a case is non-trivial when it has >=2 links; distinct = distinct history. oracle: BFS on the real Node objects (by identity when names "
-        "are shared), registry interleavings on the real frame registry in forked children (solarsystem, jpl with tests/data/jpl, lagrange, stations below non-ITRF parents, orbit frames, "
-        "re-registrations) under step / time / memory bounds")
+        "on n<=5 (quick) / n<=6 (thorough) nodes plus random forests (<=40 nodes), random cyclic graphs, random multigraphs with self-links and repeated links, rings closed last (5..15 / 5..30 "
+        "nodes), trees in a random order of their links; exhaustive exploration of every reachable state on <=4 nodes (5 nodes: bounded rounds); the same with shared names (3 nodes: every name "
+        "assignment x every history; 4 nodes sampled/exhaustive; random <=12 nodes; star-of-same-named-children shapes); registry scenarios: every driven site below a plain / subclass / "
+        "sub-subclass parent, random interleavings of sites and raw operations, the same with freely spelled names from collision-prone pools (string-keyed model); a case is non-trivial when it "
+        "has >=2 links; distinct = distinct history. oracle: BFS on the real Node objects (by identity when names are shared): valid simple chain, <= steps field, shortest unless the source's "
+        "entry is stale, nearest node of a name in forests; registry interleavings on the real frame registry in forked children (solarsystem, jpl with tests/data/jpl, lagrange, stations below "
+        "non-ITRF parents, orbit frames, re-registrations) under step / time / memory bounds, goodName evaluated on every live name")
 
 
 def extract(ctx):
@@ -347,6 +408,17 @@ def correspondence(ctx):
     for _ in range(ctx.n(300, 5000)):
         n = ctx.rng.randint(3, 8)
         cases.append((n, random_graph(ctx.rng, n), "cyclic-random"))
+    # any graph: self-links and repeated links included (the theorems of Props/C20Graph.lean exclude self-links; the model does not)
+    for _ in range(ctx.n(200, 3000)):
+        n = ctx.rng.randint(2, 7)
+        cases.append((n, random_multigraph(ctx.rng, n), "multigraph-selflinks"))
+    # rings closed last (Witness/C20.lean: ringHist): the detour grows with the ring
+    for n in range(5, ctx.n(16, 31)):
+        cases.append((n, ring_history(n), "ring-closed-last"))
+    # trees assembled from sub-trees: a leaf-by-leaf history in a random order of its links (Props/C20Graph.lean: tree_any_order_routes_exact)
+    for _ in range(ctx.n(150, 2000)):
+        n = ctx.rng.randint(4, 14)
+        cases.append((n, permuted_tree(ctx.rng, n), "tree-any-order"))
     # the built-in graphs in execution order
     for name, (names, hist) in getattr(ctx, "graphs", {}).items():
         cases.append((len(names), hist, "builtin-" + name))
@@ -359,7 +431,7 @@ def correspondence(ctx):
         side = {"dumps": ["?"] * len(cases), "live": {}}
     for (n, h, kind), m, real in zip(cases, model, side["dumps"]):
         out.count(key=(n, tuple(h)), nontrivial=len(h) >= 2, kind=kind, links=min(len(h), 9))
-        if real != m:
+        if real != m and not str(real).startswith("SKIPPED"):
             out.fail("node-tables", "routing tables / paths differ between Model/Node.lean and beyond.utils.node",
                      {"n": n, "hist": h}, observed=real, expected=m)
         out.sample({"line": line(n, h), "reply": m[:160]}, limit=3)
@@ -368,12 +440,309 @@ def correspondence(ctx):
         m = core.Driver().run([line(len(names), hist)])[0]
         exp = side["live"].get(name, "?")
         out.count(key="live-" + name, kind="live-" + name)
-        if exp != m:
+        if exp != m and not str(exp).startswith("SKIPPED"):
             out.fail("node-live", f"live {name} graph tables differ from the model run on the recorded history", name, observed=exp, expected=m)
+    correspondence_interleaved(ctx, out)
     correspondence_named(ctx, out)
     correspondence_registry(ctx, out)
+    correspondence_registry_str(ctx, out)
+    correspondence_link_names(ctx, out)
+    correspondence_closure(ctx, out)
     correspondence_real_registry(ctx, out)
     return out
+
+
+def _interleaved_real_side(cases):
+    """histories on ONE set of live objects: after every link all tables are dumped and every path is queried (read, modify,
+    read again), so that anything the objects remember between two queries shows"""
+    from harness import c20_registry as R
+    from beyond.utils.node import Node
+    out = []
+    for names, h in cases:
+        def run():
+            dumps = []
+            if names is None:
+                n = 1 + max(max(e) for e in h)
+                nodes = [Node(str(i)) for i in range(n)]
+                for a, b in h:
+                    nodes[a] + nodes[b]
+                    dumps.append(real_dump(n, nodes))
+            else:
+                nodes = [Node(str(x)) for x in names]
+                for a, b in h:
+                    nodes[a] + nodes[b]
+                    dumps.append(R.dump_real_nodes(nodes) + " P " + ";".join(R.real_named_paths(nodes, names)))
+            return dumps
+        st, v = guarded(run, limit=6.0)
+        out.append(v if st == "ok" else [f"{st.upper()}:{v}"])
+    return out
+
+
+def correspondence_interleaved(ctx, out):
+    """queries interleaved with links on the same live Node objects (plain and shared names) vs the model run on every prefix"""
+    from harness import c20_registry as R
+    cases = []
+    for _ in range(ctx.n(60, 600)):
+        n = ctx.rng.randint(3, 7)
+        r = ctx.rng.random()
+        h = random_graph(ctx.rng, n) if r < 0.4 else (random_tree_history(ctx.rng, n) if r < 0.7 else [e for e in random_multigraph(ctx.rng, n)])
+        if not h:
+            continue
+        if ctx.rng.random() < 0.5:
+            cases.append((None, h, "interleaved-plain"))
+        else:
+            n = 1 + max(max(e) for e in h)
+            cases.append((random_names(ctx.rng, n), h, "interleaved-named"))
+    lines = []
+    for names, h, _ in cases:
+        for i in range(1, len(h) + 1):
+            lines.append(line(1 + max(max(e) for e in h), h[:i]) if names is None else R.named_line(names, h[:i]))
+    model = core.Driver().run(lines)
+    reals, why = R.forked(_interleaved_real_side, [(nm, h) for nm, h, _ in cases], time_limit=ctx.n(120, 600), mem_gb=4.0)
+    if reals is None:
+        out.fail("interleaved-real-side", "the real Node class could not be driven through the interleaved histories within the time / memory bound", {"n": len(cases)}, observed=why)
+        return
+    k = 0
+    for (names, h, kind), real in zip(cases, reals):
+        ms = model[k:k + len(h)]
+        k += len(h)
+        out.count(key=(kind, None if names is None else tuple(names), tuple(h)), nontrivial=len(h) >= 2, kind=kind)
+        if list(real) != list(ms) and not str(real[0]).startswith("SKIPPED"):
+            i = next((j for j, (a, b) in enumerate(zip(real, ms)) if a != b), min(len(real), len(ms)))
+            out.fail("node-interleaved", "tables / paths read BETWEEN the links on the same live objects differ from the model run on the prefix",
+                     {"names": names, "hist": [list(e) for e in h], "after_links": i + 1}, observed=(real[i] if i < len(real) else None), expected=(ms[i] if i < len(ms) else None))
+
+
+def random_multigraph(rng, n):
+    """any sequence of `+`: self-links, repeated links (either orientation), cycles"""
+    hist = []
+    for _ in range(rng.randint(1, 2 * n + 2)):
+        r = rng.random()
+        if r < 0.12:
+            a = rng.randrange(n)
+            hist.append((a, a))
+        elif r < 0.3 and hist:
+            a, b = rng.choice(hist)
+            hist.append((a, b) if rng.random() < 0.5 else (b, a))
+        else:
+            hist.append((rng.randrange(n), rng.randrange(n)))
+    return hist
+
+
+def ring_history(n):
+    """two arms from node 0 closed last by (n-2) + (n-1): Witness/C20.lean ringHist"""
+    return [(0, 1), (0, 2)] + [(k + 1, k + 3) for k in range(n - 3)] + [(n - 2, n - 1)]
+
+
+def permuted_tree(rng, n):
+    """a tree grown leaf by leaf from node 0, its links then taken in a random order (sub-trees are assembled apart and joined later)"""
+    hist = []
+    for v in range(1, n):
+        p = rng.randrange(v)
+        hist.append((v, p) if rng.random() < 0.5 else (p, v))
+    rng.shuffle(hist)
+    return hist
+
+
+def _closure_real(n, rounds, limit):
+    """every state of the REAL Node objects reachable from n unlinked nodes by any sequence of `a + b` (a != b), breadth first;
+    a state = neighbour order + tables; same statistics as the driver op `closure`"""
+    import math
+    from beyond.utils.node import Node
+
+    def build(hist):
+        nodes = [Node(str(i)) for i in range(n)]
+        for a, b in hist:
+            nodes[a] + nodes[b]
+        return nodes
+
+    def key(nodes):
+        return tuple((tuple(int(x.name) for x in nd.neighbors), tuple(sorted((int(t), int(r.direction.name), r.steps) for t, r in nd.routes.items())))
+                     for nd in nodes)
+    pairs = [(a, b) for a in range(n) for b in range(n) if a != b]
+    seen = {key(build(()))}
+    frontier = [()]
+    st = {"states": 1, "nonshort_states": 0, "nonshort_pairs": 0, "maxexcess": 0, "ratio": (1, 1), "notsimple": 0, "stepsviolated": 0, "rounds": 0}
+    wit = None
+    for _ in range(rounds):
+        if not frontier:
+            break
+        nxt = []
+        for h in frontier:
+            for e in pairs:
+                h2 = h + (e,)
+                nodes = build(h2)
+                k = key(nodes)
+                if k in seen:
+                    continue
+                seen.add(k)
+                nxt.append(h2)
+                st["states"] += 1
+                if st["states"] > limit:
+                    return {"limit": st["states"]}
+                adj = [[int(x.name) for x in nd.neighbors] for nd in nodes]
+                bad = 0
+                for s_ in range(n):
+                    d = {s_: 0}
+                    q = [s_]
+                    for u in q:
+                        for v in adj[u]:
+                            if v not in d:
+                                d[v] = d[u] + 1
+                                q.append(v)
+                    for t in range(n):
+                        if t == s_:
+                            continue
+                        r = real_path(nodes, s_, t, n)
+                        if t not in d:
+                            if r != "U":
+                                st["notsimple"] += 1
+                            continue
+                        if r in ("U", "K", "L", "?"):
+                            st["notsimple"] += 1
+                            continue
+                        p = r.split(".")
+                        hops = len(p) - 1
+                        if len(set(p)) != len(p):
+                            st["notsimple"] += 1
+                        ent = nodes[s_].routes.get(str(t))
+                        if ent is None or hops > ent.steps:
+                            st["stepsviolated"] += 1
+                        if hops != d[t]:
+                            bad += 1
+                            if hops - d[t] > st["maxexcess"]:
+                                st["maxexcess"] = hops - d[t]
+                                wit = [list(map(list, h2)), s_, t, r]
+                            if hops * st["ratio"][1] > st["ratio"][0] * d[t]:
+                                st["ratio"] = (hops, d[t])
+                if bad:
+                    st["nonshort_states"] += 1
+                    st["nonshort_pairs"] += bad
+        frontier = nxt
+        st["rounds"] += 1
+    g = math.gcd(*st["ratio"])
+    st["ratio"] = [st["ratio"][0] // g, st["ratio"][1] // g]
+    st["complete"] = 0 if frontier else 1
+    st["witness"] = wit
+    return st
+
+
+def correspondence_closure(ctx, out):
+    """EXHAUSTIVE over histories: every state reachable on n nodes by any sequence of links (repeated links, cycles, any order
+    and orientation) — the compiled model and the real Node class are explored independently, the statistics must agree:
+    number of states, of states / pairs routed along a non-shortest chain, worst detour, worst stretch; paths that repeat a
+    node or exceed the steps field of their source are counted (must be 0: Props/C20Graph.lean)"""
+    import math
+    from harness import c20_registry as R
+    if any(f["family"] in ("node-tables", "node-real-side", "node-interleaved") for f in out.failures):
+        out.notes.append("closure exploration skipped: the model and the real class already disagree on single histories")
+        return
+    plan = [(2, 40), (3, 40), (4, 40), (5, ctx.n(4, 6))]
+    for n, rounds in plan:
+        reply = core.Driver().run([f"closure {n} 3000000 {rounds}"])[0]
+        real, why = R.forked(_closure_real, n, rounds, 3000000, time_limit=ctx.n(120, 900), mem_gb=4.0)
+        out.count(key=("closure", n, rounds), kind=f"closure-{n}-nodes", nontrivial=True)
+        if real is None or "limit" in (real or {}):
+            out.fail("closure-real-side", "exploration of the reachable states of the real Node class did not finish", {"n": n, "rounds": rounds}, observed=why or real)
+            continue
+        try:
+            m = dict(x.split("=") for x in reply.split())
+            a, b = map(int, m["maxratio"].split("/"))
+            g = math.gcd(a, b)
+            mm = {"states": int(m["states"]), "nonshort_states": int(m["nonshort_states"]), "nonshort_pairs": int(m["nonshort_pairs"]),
+                  "maxexcess": int(m["maxexcess"]), "ratio": [a // g, b // g], "notsimple": int(m["notsimple"]), "stepsviolated": int(m["stepsviolated"]),
+                  "rounds": int(m["rounds"]), "complete": int(m["complete"])}
+        except Exception:  # noqa: BLE001
+            out.fail("closure-model-side", "driver reply of the state exploration is malformed", {"n": n, "rounds": rounds}, observed=reply[:200])
+            continue
+        rr = {k: real[k] for k in mm}
+        out.cases += mm["states"]
+        out.notes.append(f"closure n={n} rounds<={rounds}: " + ", ".join(f"{k}={v}" for k, v in mm.items()) + f" witness={real.get('witness')}")
+        if rr != mm:
+            out.fail("closure-statistics", "statistics of the exhaustive state exploration differ between the compiled model and the real Node class",
+                     {"n": n, "rounds": rounds, "witness": real.get("witness")}, observed=rr, expected=mm)
+        if rr["notsimple"] or rr["stepsviolated"]:
+            out.fail("closure-path-not-simple", "a reachable state routes a connected pair along a path that repeats a node / is not found / exceeds the steps field",
+                     {"n": n, "rounds": rounds}, observed=rr)
+        if n <= 4 and (rr["nonshort_states"] or not rr["complete"]):
+            out.fail("small-graph-not-shortest", "on <= 4 nodes some reachable state routes a pair along a non-shortest chain (known finding says never)",
+                     {"n": n, "witness": real.get("witness")}, observed=rr)
+        out.sample({"closure": n, "rounds": rounds, "model": reply[:200]}, limit=6)
+
+
+def _link_names_real(names):
+    """the Python side of goodName / linkKey"""
+    return [[("_to_" not in a) and not a.endswith("_to") for a in names],
+            [[ord(c) for c in f"{a}_to_{b}"] for a in names[:12] for b in names[:12]]]
+
+
+def link_name_pool(rng):
+    from harness import c20_registry as R
+    base = ["EME2000", "ITRF", "Earth", "Moon", "Toulouse", "Site 1", "Site-1", "S_to", "S", "to_Earth", "A_to_B", "_to_", "_to", "to_", "to", "", "x_to_", "_tox", "a_t", "é_to", "_to_to", "x_to\u00e9"]
+    for p in R.NAME_POOLS:
+        base += [x.replace("{t}", "T") for x in p]
+    alphabet = ["_", "t", "o", "_to", "_to_", "a", "E", "-", " "]
+    for _ in range(60):
+        base.append("".join(rng.choice(alphabet) for _ in range(rng.randint(0, 6))))
+    return base
+
+
+def correspondence_link_names(ctx, out):
+    """Model/LinkKey.lean linkKey and Model/RegistryStr.lean goodName vs Python's f-string / `in` / endswith on the same names"""
+    from harness import c20_registry as R
+    names = link_name_pool(ctx.rng)
+    good, keys = _link_names_real(names)
+    lines = ["goodname " + R.codepoints(a) for a in names] + [f"linkkey {R.codepoints(a)} {R.codepoints(b)}" for a in names[:12] for b in names[:12]]
+    rep = core.Driver().run(lines)
+    for a, g, m in zip(names, good, rep[:len(names)]):
+        out.count(key=("goodname", a), kind="link-name-predicate", good=g)
+        if m != ("1" if g else "0"):
+            out.fail("link-name-predicate", "goodName of the model differs from ('_to_' not in a and not a.endswith('_to'))", {"name": a}, observed=g, expected=m)
+    for (a, b), k, m in zip([(a, b) for a in names[:12] for b in names[:12]], keys, rep[len(names):]):
+        out.count(key=("linkkey", a, b), kind="link-key")
+        if ".".join(map(str, k)) != m:
+            out.fail("link-key", "linkKey of the model differs from f'{a}_to_{b}'", {"a": a, "b": b}, observed=k, expected=m)
+    # the theorem linkKey_eq_iff on the real strings: good first names => the key determines the pair
+    seen = {}
+    for a in names:
+        for b in names:
+            k = f"{a}_to_{b}"
+            if k in seen and seen[k] != (a, b):
+                a2, b2 = seen[k]
+                ga = ("_to_" not in a) and not a.endswith("_to")
+                ga2 = ("_to_" not in a2) and not a2.endswith("_to")
+                out.tally("kind=link-key-collision-outside-predicate")
+                if ga and ga2:
+                    out.fail("link-key-collision-good-names", "two pairs of names with good first names share one attribute name (contradicts linkKey_eq_iff)",
+                             {"pairs": [[a, b], [a2, b2]]}, observed=k)
+            seen.setdefault(k, (a, b))
+
+
+def correspondence_registry_str(ctx, out):
+    """Model/RegistryStr.lean (method table keyed by the attribute-name STRING, as the code does) vs the real Orientation / Center
+    classes on names spelled freely — including names containing '_to_' / ending with '_to', where two pairs of names share one
+    method (open finding C20-link-name-collision): the model must reproduce which object's method every step resolves to"""
+    from harness import c20_registry as R
+    labels = core.Driver().run(["sites"])[0].split(";")
+    sc = R.fixed_string_scenarios(labels, ORIENT_MRO, CENTER_MRO)
+    for i in range(ctx.n(120, 2000)):
+        w = "orient" if i % 2 else "center"
+        x = R.random_string_scenario(ctx.rng, w, labels, ORIENT_MRO if w == "orient" else CENTER_MRO, f"{i}")
+        x["kind"] = "sreg-random-" + w
+        sc.append(x)
+    model = core.Driver().run([R.sreg_line(x) for x in sc])
+    real, why = R.forked(R.real_reg_dumps, sc, labels, time_limit=ctx.n(120, 600))
+    if real is None:
+        out.fail("registry-str-real-side", "the real classes could not be driven through the string-named scenarios within the time/memory bound", {"n": len(sc)}, observed=why)
+        return
+    for x, m, r in zip(sc, model, real):
+        col = R.has_key_collision(x, labels)
+        out.count(key=("sreg", x["world"], tuple(x["names"]), tuple(x["classes"]), tuple(x["ops"]), tuple(x["strs"])), kind=x["kind"], key_collision=col,
+                  unresolved="UT:" in m)
+        if r != m:
+            out.fail("registry-str-convert", "method resolution of convert_to on freely spelled names differs between Model/RegistryStr.lean (string-keyed) and the real classes",
+                     {k: x[k] for k in ("world", "names", "classes", "ops", "strs", "tag")}, observed=r, expected=m)
+        out.sample({"line": R.sreg_line(x)[:240], "reply": m[:200]}, limit=4)
 
 
 def correspondence_real_registry(ctx, out):
@@ -390,8 +759,12 @@ def correspondence_real_registry(ctx, out):
     for i in range(ctx.n(6, 120)):
         scen.append((f"random{i}", R.random_scenario(ctx.rng, ctx.rng.randint(3, 10))))
     lines, meta = [], []
+    bound_hits = 0
     for nm, ops in scen:
+        if bound_hits >= 2:
+            continue
         res = R.run_forked(ops, {"builtin": builtin, "no_convert": True}, time_limit=40.0)
+        bound_hits += any(f["family"] == "scenario-exceeds-bound" for f in res.get("fails", []))
         if res.get("error") or not res.get("tie"):
             if not res.get("fails"):
                 out.fail("real-registry-tie", "scenario could not be recorded on the real registry", {"registry_scenario": ops}, observed=res.get("error"))
@@ -484,7 +857,7 @@ def correspondence_named(ctx, out):
         return
     for (names, h, kind), m, real in zip(cases, model, reals):
         out.count(key=("named", tuple(names), tuple(h)), nontrivial=len(h) >= 2 and len(set(names)) < len(names), kind=kind)
-        if real != m:
+        if real != m and not str(real).startswith("SKIPPED"):
             out.fail("named-node-tables", "routing tables / paths of nodes sharing names differ between Model/Registry.lean and beyond.utils.node",
                      {"names": names, "hist": h}, observed=real, expected=m)
         out.sample({"line": R.named_line(names, h), "reply": m[:160]}, limit=4)
@@ -640,6 +1013,30 @@ def check_history(out, n, hist, kind):
 
 def _check_history(out, n, hist, kind):
     nodes = real_build(n, hist)
+    _check_built(out, n, hist, nodes, {})
+    out.count(key=(n, tuple(hist)), nontrivial=len(hist) >= 2, kind=kind)
+    return nodes
+
+
+def check_interleaved(out, n, hist, kind):
+    return guarded_check(out, {"n": n, "hist": [list(e) for e in hist], "interleaved": True}, _check_interleaved, n, hist, kind)
+
+
+def _check_interleaved(out, n, hist, kind):
+    """read, modify, read again on the SAME live objects: every clause is checked after every link (anything a node remembers from
+    an earlier query — a memoised path, a table not rebuilt — shows as a wrong answer for the current set of links)"""
+    from beyond.utils.node import Node
+    nodes = [Node(str(i)) for i in range(n)]
+    for i, (a, b) in enumerate(hist):
+        nodes[a] + nodes[b]
+        before = len(out.failures)
+        _check_built(out, n, list(hist[:i + 1]), nodes, {"interleaved": True, "full_hist": [list(e) for e in hist]})
+        if len(out.failures) > before:
+            break
+    out.count(key=("interleaved", n, tuple(hist)), nontrivial=len(hist) >= 2, kind=kind)
+
+
+def _check_built(out, n, hist, nodes, extra):
     linked = {frozenset(e) for e in hist}
     is_forest = len(linked) == len(hist) and all(True for _ in [0]) and _is_forest(n, hist)
     for s in range(n):
@@ -648,20 +1045,60 @@ def _check_history(out, n, hist, kind):
             r = real_path(nodes, s, t, n)
             if t not in d:
                 if r != "U":
-                    out.fail("unconnected-not-reported", "unconnected pair not reported as unknown", {"n": n, "hist": hist, "s": s, "t": t}, observed=r, expected="U")
+                    out.fail("unconnected-not-reported", "unconnected pair not reported as unknown", dict({"n": n, "hist": hist, "s": s, "t": t}, **extra), observed=r, expected="U")
                 continue
             if r in ("U", "K", "L", "?"):
-                out.fail("connected-no-route", "connected pair has no usable route", {"n": n, "hist": hist, "s": s, "t": t}, observed=r, expected=f"path of {d[t]} steps")
+                out.fail("connected-no-route", "connected pair has no usable route", dict({"n": n, "hist": hist, "s": s, "t": t}, **extra), observed=r, expected=f"path of {d[t]} steps")
                 continue
             p = [int(x) for x in r.split(".")]
             valid = p[0] == s and p[-1] == t and all(frozenset((p[i], p[i + 1])) in linked for i in range(len(p) - 1))
+            ent = nodes[s].routes.get(str(t))
             if not valid:
-                out.fail("invalid-chain", "returned path is not a chain of existing links", {"n": n, "hist": hist, "s": s, "t": t}, observed=r)
+                out.fail("invalid-chain", "returned path is not a chain of existing links", dict({"n": n, "hist": hist, "s": s, "t": t}, **extra), observed=r)
+            elif len(set(p)) != len(p) or len(p) > n:
+                # Props/C20Graph.lean graph_path_simple: any graph, any history
+                out.fail("path-repeats-node", "returned path visits a node twice / has more than n - 1 hops", dict({"n": n, "hist": hist, "s": s, "t": t}, **extra), observed=r)
+            elif s != t and (ent is None or len(p) - 1 > ent.steps):
+                # Props/C20Graph.lean graph_steps_bound
+                out.fail("steps-field-exceeded", "returned path has more hops than the steps field of the source's table entry", dict({"n": n, "hist": hist, "s": s, "t": t}, **extra),
+                         observed=r, expected=None if ent is None else ent.steps)
+            elif s != t and len(p) - 1 != d[t] and ent.steps == d[t]:
+                # Props/C20Graph.lean shortest_if_steps_not_stale
+                out.fail("nonshortest-without-stale-entry", "non-shortest path although the source's steps field equals the distance", dict({"n": n, "hist": hist, "s": s, "t": t}, **extra), observed=r)
             elif len(p) - 1 != d[t]:
                 fam = "forest-not-unique-path" if is_forest else "cyclic-nonshortest"
-                out.fail(fam, "returned path is valid but not a shortest chain", {"n": n, "hist": hist, "s": s, "t": t}, observed=r, expected=f"{d[t]} steps")
-    out.count(key=(n, tuple(hist)), nontrivial=len(hist) >= 2, kind=kind)
-    return nodes
+                out.fail(fam, "returned path is valid but not a shortest chain", dict({"n": n, "hist": hist, "s": s, "t": t}, **extra), observed=r, expected=f"{d[t]} steps")
+
+
+def check_interleaved_known(out, n, hist, kind):
+    """interleaved queries on a cyclic history: the non-shortest routes are the open finding, everything else is checked"""
+    tmp = Outcome()
+    check_interleaved(tmp, n, hist, kind)
+    out.cases += tmp.cases
+    out.keys |= tmp.keys
+    for k, v in tmp.dist.items():
+        out.dist[k] = out.dist.get(k, 0) + v
+    out.failures.extend(f for f in tmp.failures if f["family"] != "cyclic-nonshortest")
+
+
+def check_history_known(out, n, hist, kind):
+    """a history of the family whose non-shortest routes ARE the open finding (rings closed last): everything but the
+    shortest-chain clause is checked, and the detour must be the one the model predicts (n - 2 hops for two links)"""
+    tmp = Outcome()
+    check_history(tmp, n, hist, kind)
+    out.cases += tmp.cases
+    out.keys |= tmp.keys
+    for k, v in tmp.dist.items():
+        out.dist[k] = out.dist.get(k, 0) + v
+    ns = [f for f in tmp.failures if f["family"] == "cyclic-nonshortest"]
+    out.failures.extend(f for f in tmp.failures if f["family"] != "cyclic-nonshortest")
+    src = n - 3
+    arm = list(range(src, 0, -2)) + [0] + list(range(2, n - 1, 2)) if src % 2 else list(range(src, -1, -2)) + list(range(1, n - 1, 2))
+    want = ".".join(map(str, arm))
+    got = [f["observed"] for f in ns if (f["input"]["s"], f["input"]["t"]) == (n - 3, n - 2)]
+    if got != [want]:
+        out.fail("ring-detour-changed", "the route between the two neighbours of the last-linked node of a ring closed last is not the long way round (n - 2 hops)",
+                 {"n": n, "hist": [list(e) for e in hist], "s": n - 3, "t": n - 2}, observed=got, expected=want)
 
 
 def _is_forest(n, hist):
@@ -836,16 +1273,21 @@ def check_named_history(out, names, hist, kind):
 def _check_named_history(out, names, hist, kind):
     """nodes sharing names: from every node, every NAME carried by a connected node is reached along existing links (the
     nearest such node when the links form a forest), every other name is reported unknown; the walk is step-bounded"""
-    from harness import c20_registry as R
     from beyond.utils.node import Node
-    n = len(names)
     nodes = [Node(str(x)) for x in names]
     for a, b in hist:
         nodes[a] + nodes[b]
+    _check_named_built(out, names, hist, nodes, {})
+    out.count(key=("named", tuple(names), tuple(map(tuple, hist))), nontrivial=len(hist) >= 2 and len(set(names)) < len(names), kind=kind)
+
+
+def _check_named_built(out, names, hist, nodes, extra):
+    from harness import c20_registry as R
+    n = len(names)
     idx = {id(x): i for i, x in enumerate(nodes)}
     linked = {frozenset(e) for e in hist}
     forest = _is_forest(n, hist)
-    inp = {"names": list(names), "hist": [list(e) for e in hist]}
+    inp = dict({"names": list(names), "hist": [list(e) for e in hist]}, **extra)
     for s in range(n):
         d = bfs(n, hist, s)
         for goal in sorted(set(names)):
@@ -866,9 +1308,29 @@ def _check_named_history(out, names, hist, kind):
             p = [idx[id(x)] for x in nodes[s].path(str(goal))]
             if not (p[0] == s and names[p[-1]] == goal and all(frozenset((p[i], p[i + 1])) in linked for i in range(len(p) - 1))):
                 out.fail("named-invalid-chain", "returned path is not a chain of existing links ending at a node of the goal name", where, observed=p)
+            elif len(set(p)) != len(p) or any(names[x] == goal for x in p[:-1]):
+                # Props/C20NamedForest.lean named_graph_routes_total: any graph, any names
+                out.fail("named-path-not-simple", "returned path repeats a node or passes through an earlier node of the goal name", where, observed=p)
             elif forest and len(p) - 1 != min(cands):
                 out.fail("named-forest-not-nearest", "in a forest the path does not lead to the nearest node of that name", where, observed=p, expected=f"{min(cands)} steps")
-    out.count(key=("named", tuple(names), tuple(map(tuple, hist))), nontrivial=len(hist) >= 2 and len(set(names)) < n, kind=kind)
+
+
+def check_named_interleaved(out, names, hist, kind):
+    return guarded_check(out, {"names": list(names), "hist": [list(e) for e in hist], "interleaved": True}, _check_named_interleaved, names, hist, kind)
+
+
+def _check_named_interleaved(out, names, hist, kind):
+    """shared names, queries between the links on the same live objects: a node of the name registered LATER and nearer must be
+    the one reached from then on"""
+    from beyond.utils.node import Node
+    nodes = [Node(str(x)) for x in names]
+    for i, (a, b) in enumerate(hist):
+        nodes[a] + nodes[b]
+        before = len(out.failures)
+        _check_named_built(out, names, list(hist[:i + 1]), nodes, {"interleaved": True, "full_hist": [list(e) for e in hist]})
+        if len(out.failures) > before:
+            break
+    out.count(key=("named-interleaved", tuple(names), tuple(map(tuple, hist))), nontrivial=len(hist) >= 2 and len(set(names)) < len(names), kind=kind)
 
 
 def check_registry_scenarios(out, ctx, rng, big):
@@ -881,8 +1343,13 @@ def check_registry_scenarios(out, ctx, rng, big):
     for i in range(60 if ctx.thorough else (20 if big else 6)):
         scen.append((f"random{i}", R.random_scenario(rng, rng.randint(4, 12 if big else 9)), "registry-random"))
     tot = {}
+    bound_hits = 0
     for nm, ops, kind in scen:
+        if bound_hits >= 2:
+            out.tally("kind=registry-skipped-after-bound")     # a library whose conversions do not terminate: two failing scenarios are enough
+            continue
         res = R.run_forked(ops, {"max_pairs": 60 if big else 40}, time_limit=60.0 if big else 25.0)
+        bound_hits += any(f["family"] == "scenario-exceeds-bound" for f in res.get("fails", []))
         if res.get("error"):
             raise RuntimeError(f"registry scenario {nm}: {res['error']} {res.get('tb', '')}")
         c = res.get("counts", {})
@@ -896,6 +1363,20 @@ def check_registry_scenarios(out, ctx, rng, big):
                 continue
             seen.add(f["family"])
             out.fail(f["family"], f["what"], {"registry_scenario": ops, "name": nm, "detail": f["detail"]}, observed=f["detail"])
+        # the decidable hypothesis of linkKey_injective / fresh_names_keep_methods_str, evaluated by the compiled model on the names
+        # that are live in the REAL registries (library-made names included): a key collision needs a name outside the predicate
+        live = res.get("names", [])
+        good = core.Driver().run(["goodname " + R.codepoints(x) for x in live]) if live else []
+        bad = [x for x, g in zip(live, good) if g != "1"]
+        out.tally(f"kind=registry-names-{'all-good' if not bad else 'some-outside-predicate'}")
+        tot["names_checked"] = tot.get("names_checked", 0) + len(live)
+        if bad and kind != "registry-known":
+            out.fail("name-outside-predicate", "a name live in the real registries contains '_to_' or ends with '_to' (the harness never creates one outside the "
+                     "scenario of the open finding; a library-made one would put the built-in registry outside linkKey_injective)",
+                     {"registry_scenario": ops, "name": nm}, observed=bad)
+        if not bad and "link-name-collision" in seen:
+            out.fail("link-name-collision-good-names", "two pairs of names share a link method although every live name satisfies goodName "
+                     "(contradicts Props/C20LinkKeyReg.lean fresh_names_keep_methods_str)", {"registry_scenario": ops, "name": nm}, observed=live)
     out.notes.append("real-registry scenarios: " + ", ".join(f"{k}={v}" for k, v in sorted(tot.items())))
     out.sample({"registry_scenario": scen[0][1][:3], "checked": "bounded route sweep by identity, link-method resolvability from every start object, all pairs convert, unchanged by new names"})
 
@@ -954,6 +1435,26 @@ def _node_level_oracle(seed, thorough, big):
         n = rng.randint(4, 7)
         check_history(out, n, random_graph(rng, n), "cyclic-random")
     for _ in range(2000 if big else 300):
+        n = rng.randint(4, 9)
+        check_history(out, n, [e for e in random_multigraph(rng, n) if e[0] != e[1]], "multigraph")
+    for n in range(5, 31 if big else 14):
+        check_history_known(out, n, ring_history(n), "ring-closed-last")
+    for _ in range(1500 if big else 150):
+        n = rng.randint(4, 14)
+        check_history(out, n, permuted_tree(rng, n), "tree-any-order")
+    for _ in range(600 if big else 80):
+        n = rng.randint(3, 8)
+        r = rng.random()
+        h = random_tree_history(rng, n) if r < 0.5 else (random_forest(rng, n) if r < 0.7 else [e for e in random_graph(rng, n)])
+        if r < 0.7:
+            check_interleaved(out, n, h, "interleaved-forest")
+        else:
+            check_interleaved_known(out, n, h, "interleaved-cyclic")
+    for _ in range(600 if big else 80):
+        n = rng.randint(3, 9)
+        h = random_tree_history(rng, n) if rng.random() < 0.7 else random_forest(rng, n)
+        check_named_interleaved(out, random_names(rng, n), h, "interleaved-named")
+    for _ in range(2000 if big else 300):
         n = rng.randint(2, 12)
         check_new_registration(out, rng, n, random_forest(rng, n))
     for names, h, kind in named_cases(ctx, rng, 3000 if big else 300, 3000):
@@ -1002,8 +1503,12 @@ def replay(f):
             if x["family"] == f["family"]:
                 out.fail(x["family"], x["what"], i, observed=x["detail"])
                 break
+    elif "names" in i and i.get("interleaved"):
+        check_named_interleaved(out, i["names"], [tuple(e) for e in i.get("full_hist", i["hist"])], "replay")
     elif "names" in i:
         check_named_history(out, i["names"], [tuple(e) for e in i["hist"]], "replay")
+    elif "hist" in i and i.get("interleaved"):
+        check_interleaved(out, i["n"], [tuple(e) for e in i.get("full_hist", i["hist"])], "replay")
     elif "hist" in i:
         check_history(out, i["n"], [tuple(e) for e in i["hist"]], "replay")
     return out
